@@ -162,7 +162,8 @@ fn foreign(in_window: bool) -> Act {
             },
             7 => {
                 let p = &mut w.peers[id];
-                if p.inserted && !p.closed && burst == 1 {
+                // closes are rare: most runs keep at least two live peers for the fairness phase
+                if p.inserted && !p.closed && burst == 1 && id % 2 == 1 {
                     p.closed = true;
                     if let Some(wk) = p.armed.take() {
                         return Act::Wake(wk);
@@ -362,8 +363,13 @@ pub fn run(ctx: &mut Ctx) {
     }
     zmq_sim_sync::set_preempt_hook(None);
     // ---- quiescence oracles ----------------------------------------------------------------------
+    let aborted = violations.len() > 3;
     let (iw, ii, dels) = w(|w| {
         for (i, p) in w.peers.iter().enumerate() {
+            if aborted {
+                // the drain was cut short by earlier violations: leftovers prove nothing
+                break;
+            }
             if p.inserted && !p.removed && !p.queue.is_empty() {
                 violations.push(("lost_wakeup", format!("receiver is parked and has not been woken, yet peer {i} has {} undelivered items (its waker armed: {})", p.queue.len(), p.armed.is_some())));
             }
